@@ -87,7 +87,7 @@ def init (fields : List String) : DSt :=
   ⟨⟨getB m "insecure"⟩, ⟨false, "", 0, "", getB m "sm"⟩⟩
 
 /-- which oracle judges the implementation's observation -/
-inductive Which where | c03 | c04 | c11
+inductive Which where | c03 | c04 | c11 | c14
 
 /-- C11 oracle on an observed write list: a resume request appears only with the held id and count, and exactly
 when one is held and SM is advertised (if that step was reached); after a reply other than "resumed, same id"
@@ -119,6 +119,7 @@ def stepWith (which : Which) (d : DSt) (fields : List String) (impl : String) : 
           -- secure writes only after a verified handshake
           (ws.all fun w => !w.secure || (hsOk && Model.C04.startTLSOk tcfg cert))
       | .c11 => holdsC11 d.sess sc ws
+      | .c14 => authGateOk sc est ws
     let okM := spec (r.outcome == .established) r.writes
     let okI := match io with
       | some o => !o.crashed && spec o.established o.writes
